@@ -136,6 +136,9 @@ pub fn migrate_step(
 
     if set_version.as_deref() == Some("<absent>") {
         sim.chain.storage.data.remove(b"version_info".as_slice());
+    } else if let Some(v) = set_version.as_deref().and_then(|v| v.strip_prefix("<nodef>")) {
+        // a record that lacks a field the format requires is unreadable
+        sim.chain.storage.data.insert(b"version_info".to_vec(), serde_json::to_vec(&json!({"version": v})).unwrap());
     } else if set_version.as_deref() == Some("<garbage>") {
         sim.chain.storage.data.insert(b"version_info".to_vec(), b"{not json".to_vec());
     } else if let Some(v) = set_version {
@@ -208,6 +211,22 @@ pub fn migrate_step(
         // exactly the stored (old / unreadable) record
         crate::probes::probe_query_singletons(sim);
         sim.cov.probe("version_query_on_unmigrated_state");
+        // an order the current code cannot read may be refused, never misreported
+        for id in &rewritten {
+            if let Ok(g) = sim.chain.query(&json!({"get_bid": {"id": id}})) {
+                if let (Ok(got), Some(want)) = (book::decode_bid_value(&g), book_pre.bids.get(id)) {
+                    if got.unfilled() != want.unfilled() || got.unspent_quote() != want.unspent_quote() || got.unspent_fee() != want.unspent_fee() {
+                        sim.flag(
+                            &["C16"],
+                            "P-query.old_format_bid_misreported",
+                            "query",
+                            "",
+                            format!("get_bid on event-log bid {} reports remaining {}/{}/{} but {}/{}/{} remain", id, got.unfilled(), got.unspent_quote(), got.unspent_fee(), want.unfilled(), want.unspent_quote(), want.unspent_fee()),
+                        );
+                    }
+                }
+            }
+        }
     }
     let after_rewrite = sim.chain.storage.data.clone();
     let exp = model::expect_migrate(stored_version.as_deref(), msg, &cfg_pre);
@@ -267,7 +286,7 @@ pub fn migrate_step(
             }
             KeyClass::Bid => {
                 if !post.contains_key(k) {
-                    sim.flag(&["C15"], "C15.bid_lost", kind, band, format!("bid {} lost in migration", id));
+                    sim.flag(&["C15", "C14"], "C15.bid_lost", kind, band, format!("bid {} lost in migration", id));
                 } else if !rewritten.contains(&id) && post.get(k) != Some(v) {
                     sim.flag(
                         &["C15"],
@@ -299,7 +318,7 @@ pub fn migrate_step(
                 match bk.bids.get(id) {
                     Some(got) => {
                         if got.v2 {
-                            sim.flag(&["C15"], "C15.not_converted", kind, band, format!("event-log bid {} was not converted", id));
+                            sim.flag(&["C15", "C14"], "C15.not_converted", kind, band, format!("event-log bid {} was not converted: the book is not preserved", id));
                         } else if got != want {
                             let q = if got.unfilled() != want.unfilled() {
                                 "remaining_base"
